@@ -219,6 +219,7 @@ func (fr *Frame) execNext(in *ssa.Next, st *State) {
 	rng := in.Iter.(*ssa.Range)
 	mt := rng.X.Type().Underlying().(*types.Map)
 	m := fr.val(rng).T
+	fr.guardCheck(st, in, rng.X, false)
 	ks := fc.mapKeySort(mt)
 	key := rangeKey(rng)
 	seen, okk := st.ghosts[key]
